@@ -106,6 +106,14 @@ class Eval:
                 if a + b > (1 << bits_of(ta)) - 1:
                     raise Unsupported("checked_add overflow (None)")
                 return (a + b, ta)
+            if last in ("wrapping_abs", "abs", "unsigned_abs") and e[2]:
+                (a, ta) = self.val(e[2][0])
+                bits = bits_of(ta)
+                sa = signed(a, bits)
+                if last == "abs" and sa == -(1 << (bits - 1)):
+                    raise Unsupported("abs overflow")
+                r = (-sa if sa < 0 else sa) & ((1 << bits) - 1)     # wrapping_abs(MIN) == MIN (same bit pattern)
+                return (r, ta if last != "unsigned_abs" else ta.replace("i", "u", 1))
             if last in ("ok_or", "ok_or_else", "unwrap_or", "unwrap"):
                 return self.val(e[2][0])
             if last in ("wrapping_add",):
